@@ -135,9 +135,10 @@ Proof.
     unfold set. destruct (String.eqb q u) eqn:E.
     + f_equal. rewrite !B. unfold over at 1 3. rewrite Wu. rewrite String.eqb_refl.
       unfold over. rewrite Wu. apply fu_idem.
-    + rewrite !B. unfold over. destruct (wmap (c_body c) q); [reflexivity|].
-      rewrite E. rewrite B. unfold over. reflexivity.
-  - intros _ o q. rewrite !B. unfold over. destruct (wmap (c_body c) q); reflexivity.
+    + rewrite !B. unfold over. destruct (wmap (c_body c) q) eqn:Wq; [reflexivity|].
+      rewrite E. rewrite B. unfold over. now rewrite Wq.
+  - intros _ o q. rewrite !B. unfold over. destruct (wmap (c_body c) q) eqn:Wq; [reflexivity|].
+    rewrite B. unfold over. now rewrite Wq.
 Qed.
 
 (* C42_depends_only_on_inputs: every path the body assigns on this input gets a value
